@@ -367,3 +367,20 @@ func vstubSyncMapRange(m *sync.Map, f func(key, value interface{}) bool) {
 		}
 	}
 }
+
+// vLiveChildren: the number of contexts derived from ctx (directly, with a cancel function)
+// that have not been cancelled yet - what the real context package keeps registered in the
+// parent until the child is cancelled. Only meaningful in the engine (0 natively).
+func vLiveChildren(ctx context.Context) int {
+	if !vIsEngine() {
+		return 0
+	}
+	p := vCancelParent(ctx)
+	if p == nil {
+		return 0
+	}
+	vAtomic(0, p.tree)
+	n := len(p.children)
+	vAtomicEnd()
+	return n
+}
